@@ -242,7 +242,14 @@ def sequential_round(ctx: Ctx, rng, idx: int) -> None:
         all_dead = list(dead)
         while dead and hops < (w.max_retry if w.max_retry is not None else 2) + 2:
             for wk in rng.sample(range(nW), rng.randint(1, nW)):
-                w.sweep(wk, rng.choice(["fail_stale_trials", "fail_stale_trials", "optimize"]))
+                how = rng.choice(["fail_stale_trials", "fail_stale_trials", "optimize"])
+                try:
+                    w.sweep(wk, how)
+                except Exception as e:  # noqa: BLE001
+                    # nothing runs concurrently here: a sweep that raises has not recovered the trials it listed
+                    ctx.violation({"cached": w.cached, "backend_family": "sqlite", **facts, "kind": "sweep_raised", "exc": type(e).__name__, "how": how},
+                                  f"worker {wk}: {how} raised {type(e).__name__}: {e}", case)
+                    return
                 ctx.count("sweeps")
             judge(ctx, w, all_dead, snap, facts, case, swept=True)
             if ctx.violations and ctx.violations[-1]["case"].get("round") == idx and ctx.violations[-1]["case"].get("driver") == "sequential":
@@ -265,7 +272,12 @@ def sequential_round(ctx: Ctx, rng, idx: int) -> None:
             hops += 1
         if dead:
             for wk in range(nW):
-                w.sweep(wk)
+                try:
+                    w.sweep(wk)
+                except Exception as e:  # noqa: BLE001
+                    ctx.violation({"cached": w.cached, "backend_family": "sqlite", **facts, "kind": "sweep_raised", "exc": type(e).__name__, "how": "fail_stale_trials"},
+                                  f"worker {wk}: fail_stale_trials raised {type(e).__name__}: {e}", case)
+                    return
             judge(ctx, w, all_dead, snap, facts, case, swept=True)
         ctx.case(case, len(all_dead) >= 2)
     finally:
@@ -431,10 +443,15 @@ def crash_sweep_round(ctx: Ctx, rng, idx: int) -> None:
                 for line in open(spec["calls"]):
                     w.calls.append((int(line), "dead_sweeper"))
             # the surviving workers sweep afterwards
-            w.sweep(0)
-            w.sweep(1)
-            ctx.count("sweeps", 3)
             case = {"driver": "sweeper_crash", "cached": cached, "max_retry": max_retry, "round": idx, "crash_before_sql_step": k, "seed": ctx.seed}
+            try:
+                w.sweep(0)
+                w.sweep(1)
+            except Exception as e:  # noqa: BLE001
+                ctx.violation({"cached": cached, "backend_family": "sqlite", "driver": "sweeper_crash", "storage_calls_overlapped": False, "kind": "sweep_raised",
+                               "exc": type(e).__name__, "how": "fail_stale_trials"}, f"a survivor's sweep raised {type(e).__name__}: {e}", case)
+                return
+            ctx.count("sweeps", 3)
             ctx.case(case, p.returncode == 137)
             judge_after_crash(ctx, w, [d1, d2], snap, case)
         finally:
